@@ -516,8 +516,31 @@ pub fn main(args: &[String]) -> i32 {
         r
     };
 
+    // regression corpus / replay of a saved case
+    let only_regress = a.get("only-regress").is_some();
+    if shard == 0 {
+        if let Some(dir) = a.get("regress") {
+            let mut files: Vec<_> = std::fs::read_dir(dir).map(|d| d.filter_map(|e| e.ok()).map(|e| e.path()).collect()).unwrap_or_default();
+            files.sort();
+            for f in files {
+                if !f.file_name().unwrap().to_string_lossy().starts_with("C20") {
+                    continue;
+                }
+                if let Ok(v) = serde_json::from_str::<serde_json::Value>(&std::fs::read_to_string(&f).unwrap_or_default()) {
+                    if let Ok(case) = serde_json::from_value::<Case>(v["case"].clone()) {
+                        let honest = Case { a: case.a.clone(), b: case.b.clone(), ops: [FrameOp::Pass, FrameOp::Pass, FrameOp::Pass, FrameOp::Pass] };
+                        let old = run_case(&honest, None, &mut cov);
+                        run_case(&case, Some(&old.frames.clone()), &mut cov);
+                    }
+                }
+            }
+        }
+    }
     // part 1 (every shard a slice): configuration matrix, untouched + every single-frame manipulation
     for (i, (ca, cb)) in configs.iter().enumerate() {
+        if only_regress {
+            break;
+        }
         if i as u64 % n_shards != shard {
             continue;
         }
@@ -540,7 +563,7 @@ pub fn main(args: &[String]) -> i32 {
     // part 2: pairs of manipulations (random), thorough tier runs until the deadline
     let pairs_budget = if tier == "thorough" { u64::MAX } else { 1500 };
     let mut n_pairs = 0u64;
-    while n_pairs < pairs_budget && Instant::now() < deadline {
+    while !only_regress && n_pairs < pairs_budget && Instant::now() < deadline {
         let (ca, cb) = rng.pick(&configs).clone();
         let honest = Case { a: ca, b: cb, ops: [FrameOp::Pass, FrameOp::Pass, FrameOp::Pass, FrameOp::Pass] };
         let old = rt.block_on(session(&honest, &keys, None));
